@@ -41,6 +41,9 @@ LEVEL_NOTE = ("Trusted: Coq kernel, extraction, drivers; BLS soundness and that 
               "oracle facts fed from the real verifier. Other heights are covered by C15.")
 
 
+NO_MODEL_RUNS = ("netfail",)
+
+
 def runs(tier, seed):
     k = 4 if tier == "thorough" else 1
     r = [("decided4-%d" % i, ["decided", "-seed", str(seed * 10 + i), "-n", str(400 * k), "-size", "4"]) for i in range(4)]
@@ -49,6 +52,8 @@ def runs(tier, seed):
     r += [("ctrl7-%d" % i, ["net", "-level", "ctrl", "-seed", str(seed * 100 + 20 + i), "-n", str(5 * k), "-size", "7"]) for i in range(3)]
     r += [("solo-%d" % i, ["attack", "-only", "solo", "-seed", str(seed * 100 + 40 + i), "-n", str(60 * k)]) for i in range(2)]
     r += [("attack-%d" % i, ["attack", "-seed", str(seed * 100 + 50 + i), "-n", str(16 * k)]) for i in range(2)]
+    # monitor only (the model has no failing publish): a timeout whose round change cannot be published, then commits of the next round
+    r += [("netfail-%d" % i, ["attack", "-only", "solo-netfail", "-seed", str(seed * 100 + 60 + i), "-n", str(40 * k)]) for i in range(1)]
     return r
 
 
